@@ -1786,7 +1786,7 @@ Proof.
   destruct (attr_kind T ctx (of_string (at_name a))) as [k|] eqn:Hk; [|discriminate].
   rewrite (comparer_iff ctx _ k Hk). destruct a as [name vals]. cbn [at_name at_values] in *.
   destruct k; cbn [is_transform_kind].
-  - destruct vals; [reflexivity|discriminate].
+  - destruct vals; [rewrite app_nil_r; reflexivity|discriminate].
   - destruct vals as [|v1 vals]; [discriminate|]. destruct v1 as [n|?|]; try discriminate.
     destruct vals as [|neg vals]; [discriminate|]. destruct vals as [|opt vals]; [destruct neg; discriminate|].
     destruct vals as [|x vals]; [|destruct neg, opt; discriminate].
